@@ -599,6 +599,45 @@ def r08_8(ctx, rep):
         raise MechanismMissing(R, "fewer than 3 loops over modification lists found in build_instance_tree")
 
 
+@SPEC.rule(
+    "R08.9",
+    "no modification is dropped silently: in build_instance_tree every iteration of the loop that sorts a component's arguments into the "
+    "component's own modification either adds something to that modification (append / extend, or the walk over the argument's element "
+    "list) or raises — a dispatch without a final branch lets the nested spelling `b(a(x(nominal = k)))` fall through and flatten to a "
+    "different model than `b(a.x.nominal = k)`",
+)
+def r08_9(ctx, rep):
+    from ..cfg import CFG, iteration_skips
+    R = "R08.9"
+    fn = ctx.func(TREE, "build_instance_tree", R)
+    site = TREE + ":build_instance_tree"
+    cfg = CFG(fn, R)
+    n = 0
+    for lp in walk_local(fn):
+        if not (isinstance(lp, ast.For) and isinstance(lp.target, ast.Name)):
+            continue
+        v = lp.target.id
+        adds_arg = any(isinstance(c.func, ast.Attribute) and c.func.attr == "append" and norm(c.func.value).endswith(".arguments") and c.args and is_name(c.args[0], v)
+                       for st in lp.body for c in calls(st))
+        branches = any(isinstance(st, ast.If) for st in lp.body)
+        if not adds_arg or not branches:
+            continue
+        n += 1
+
+        def handled(x, v=v):
+            if x.kind == "iter" and x.ast is not lp and v in {y.id for y in ast.walk(x.ast.iter) if isinstance(y, ast.Name)}:
+                return True
+            return x.kind == "stmt" and any(isinstance(c.func, ast.Attribute) and c.func.attr in ("append", "extend") and norm(c.func.value).endswith(".arguments")
+                                            for c in calls(x.ast))
+
+        w = iteration_skips(cfg, lp, handled)
+        rep.ob(R, site, "every argument of `for %s in %s` is sorted somewhere" % (v, norm(lp.iter)[:40]), w is None,
+               "an iteration can end without the argument having been added to any modification and without an error: the modification the "
+               "user wrote has no effect", path=cfg.describe(w) if w else "")
+    if n < 1:
+        raise MechanismMissing(R, "the dispatch loop over a component's modification arguments was not found in build_instance_tree")
+
+
 # -- seeded variants ---------------------------------------------------------
 from ._mut import delete_stmt_where, replace_in_func  # noqa: E402
 
